@@ -319,7 +319,7 @@ def rank_chop(s,eps):
    #      R -= 1
         
     R = R if R>0 else 1
-    R = s.size if sc[-1]>eps**2 else R
+    R = s.size if sc[-1]>=eps**2 else R
 
     return int(R)
     
